@@ -8,7 +8,13 @@ cd /verif
 wt=/dev/shm/verif-seed-$$
 trap 'git -C /repo worktree remove --force "$wt" 2>/dev/null; git -C /repo worktree prune' EXIT
 git -C /repo worktree add -q --detach "$wt" HEAD || exit 2
-git -C "$wt" apply "$patch" || { echo "seedtest: patch does not apply" >&2; exit 2; }
+# a seed was written against the /repo of its day; later fix: commits may have moved its context
+if ! git -C "$wt" apply "$patch" 2>/dev/null; then
+  git -C "$wt" apply --3way "$patch" >/dev/null 2>&1
+  # where the seed rewrites the very lines a later fix touched, the seed's version of the file wins
+  for f in $(git -C "$wt" diff --name-only --diff-filter=U); do git -C "$wt" checkout --theirs -- "$f" 2>/dev/null; done
+  if git -C "$wt" diff --quiet HEAD -- . 2>/dev/null && [ -z "$(git -C "$wt" status --porcelain)" ]; then echo "seedtest: patch does not apply (not even as a 3-way merge)" >&2; exit 2; fi
+fi
 for id in "$@"; do
   out=$(VERIF_REPO="$wt" VERIF_NO_EVIDENCE=1 ./run "$id" quick 2>&1); rc=$?
   v=$(echo "$out" | grep -c '^VIOLATION')
